@@ -16,12 +16,15 @@ EXPLANATION = (
     "abstract interpretation of typing.electrical_signal / optical_signal, each method analysed for both dynamic receiver classes. "
     "C01.1: both constructors store only freshly allocated arrays (np.array / astype / str2array results), and every operator, slice, "
     "copy and transform returns an object whose signal/noise alias no operand. C01.2: no method writes an operand's arrays or sample "
-    "fields. C01.3: results are constructed by the receiver's dynamic class. C01.4: in every branch of the constructors' layout "
-    "normalisation the reshaping applied to `signal` is applied identically to `noise` under `noise is not None`, after the "
-    "shape-equality ValueError guard. C01.5/6: in each of the four (self.noise, other.noise) None-cases the linear form of "
-    "result.signal+result.noise equals the sum/difference of the operands' total fields and noise is present iff an operand has it. "
-    "C01.7: the length guard `len differ and other.len != 1 -> ValueError` precedes the arithmetic. C01.8: slicing applies one index "
-    "to signal and noise (last axis, full first axis for two polarisations); copy(n) is self[:n]; len() is shape[1] or size. "
+    "fields. C01.3: results are constructed by the receiver's dynamic class. C01.4: both constructors are interpreted for every layout "
+    "class of the input (ndim 0/1/2, first-axis length 1/2, n_pol None/1/2, noise given or not; shapes equal or not): mismatching shapes "
+    "never construct (ValueError), and the array stored for `noise` is the one stored for `signal` with signal replaced by noise. "
+    "C01.5/6: in each of the four (self.noise, other.noise) None-cases the linear form of result.signal+result.noise equals the "
+    "sum/difference of the operands' total fields and noise is present iff an operand has it; a raw (scalar/array) operand enters the "
+    "arithmetic unaltered (no cast to the receiver's dtype). C01.7: decided on six length classes (lengths are only compared with each "
+    "other and with 1): differing lengths with other.len != 1 raise ValueError, the others construct. C01.8: slicing applies one index "
+    "to signal and noise (last axis, full first axis for two polarisations); copy(n) is self[:n] with n defaulting to len(); len() is "
+    "shape[1] or size per ndim class. "
     "Not decided: dtype promotion results, numpy broadcasting, bit-for-bit values.")
 TRUSTED = ["numpy.array copies by default; basic slicing returns views; arithmetic allocates", "utils.str2array returns a fresh array", "CPython ast"]
 
